@@ -25,7 +25,7 @@ theorem tracker_refines_spec_wide (s : Bytes) (isn : Nat) (h : List SegD)
     (hs : s.length < 2147483648) (hisn : isn < 4294967296) (hh : HistOK s h) :
     specOKw s isn (h.map SegD.seg) (runModel isn h).obs = true := by
   have hsim := run_sim hs hisn hh
-  have hinv := runAbstract_AInv hh
+  have hinv := runAbstract_AInv (tie := false) hh
   have htot := runModel_TotInv isn h
   have hk := AInv_frontier hinv
   have hall := chunks_all_ok (isn := isn) hinv hs
@@ -45,7 +45,7 @@ theorem tracker_refines_spec (s : Bytes) (isn : Nat) (h : List SegD)
     specOK s isn (h.map SegD.seg) (runModel isn h).obs = true := by
   have hs' : s.length < 2147483648 := by omega
   have hsim := run_sim hs' hisn hh
-  have hinv := runAbstract_AInv hh
+  have hinv := runAbstract_AInv (tie := false) hh
   have htot := runModel_TotInv isn h
   have hk := AInv_frontier hinv
   have hall := chunks_all_ok (isn := isn) hinv hs'
@@ -114,7 +114,7 @@ theorem delivered_is_prefix (s : Bytes) (isn : Nat) (h : List SegD)
     (hs : s.length < 2147483648) (hisn : isn < 4294967296) (hh : HistOK s h) :
     (runModel isn h).payload = s.take (frontier (h.map SegD.seg) s.length) := by
   have hsim := run_sim hs hisn hh
-  have hinv := runAbstract_AInv hh
+  have hinv := runAbstract_AInv (tie := false) hh
   rw [AInv_frontier hinv, hsim.payload, hinv.1.payload_eq]
 
 /-- each byte is delivered exactly once: `process_payload` only ever appends to the delivered data (for any
@@ -134,7 +134,7 @@ theorem complete_prefix_delivered (s : Bytes) (isn : Nat) (h : List SegD)
   have hle := frontier_le (h.map SegD.seg) s.length
   have hp := delivered_is_prefix s isn h hs hisn hh
   have hsim := run_sim hs hisn hh
-  have hinv := runAbstract_AInv hh
+  have hinv := runAbstract_AInv (tie := false) hh
   have hf := AInv_frontier hinv
   have hlen : (runModel isn h).payload.length = frontier (h.map SegD.seg) s.length := by
     rw [hp, List.length_take]; omega
